@@ -286,6 +286,10 @@ def val2bytes(val, att: str) -> bytes:
         raise ube.UBXTypeError(f"Unknown attribute type {att}") from err
 
     if atttyp(att) == "X":  # byte
+        if len(val) != attsiz(att):
+            raise ValueError(
+                f"Attribute type {att} value {val} must be {attsiz(att)} bytes long"
+            )
         valb = val
     elif atttyp(att) == "C":  # char
         valb = val.encode("utf-8", "backslashreplace") if isinstance(val, str) else val
